@@ -594,6 +594,137 @@ def extract_binding_power():
     write_if_changed("BindingPower.lean", text)
 
 EXTRACTORS += [extract_binding_power]
+
+# ---------------------------------------------------------------- C11: string escapes (crates/ast/src/lower.rs: unescape_string)
+def _rust_char(lit):
+    """code point of a Rust char literal body (between the single quotes)"""
+    simple = {"\\n": 10, "\\r": 13, "\\t": 9, "\\\\": 92, "\\'": 39, '\\"': 34, "\\0": 0}
+    if lit in simple:
+        return simple[lit]
+    m = re.fullmatch(r"\\u\{([0-9a-fA-F]+)\}", lit)
+    if m:
+        return int(m.group(1), 16)
+    m = re.fullmatch(r"\\x([0-9a-fA-F]{2})", lit)
+    if m:
+        return int(m.group(1), 16)
+    if len(lit) == 1:
+        return ord(lit)
+    raise RuntimeError(f"unescape_string: cannot read the char literal '{lit}'")
+
+def _rust_arith_to_lean(text, vars_):
+    """translate a Rust u32 expression over `vars_` (integer literals, + - * << >> & | ^, parentheses)
+    into a fully parenthesised Lean Nat expression (Rust precedences; Lean's differ for << and &)"""
+    toks = re.findall(r"0x[0-9A-Fa-f_]+|\d[\d_]*|[A-Za-z_]\w*|<<|>>|[-+*&|^()]", text)
+    if "".join(toks) != re.sub(r"\s+", "", text):
+        raise RuntimeError(f"unescape_string: unexpected token in `{text}`")
+    prec = {"*": 6, "+": 5, "-": 5, "<<": 4, ">>": 4, "&": 3, "^": 2, "|": 1}
+    lean = {"*": "*", "+": "+", "-": "-", "<<": "<<<", ">>": ">>>", "&": "&&&", "^": "^^^", "|": "|||"}
+    pos = [0]
+    def peek():
+        return toks[pos[0]] if pos[0] < len(toks) else None
+    def atom():
+        t = peek()
+        pos[0] += 1
+        if t == "(":
+            e = expr(0)
+            if peek() != ")":
+                raise RuntimeError(f"unescape_string: unbalanced parentheses in `{text}`")
+            pos[0] += 1
+            return e
+        if t is None:
+            raise RuntimeError(f"unescape_string: truncated expression `{text}`")
+        if re.fullmatch(r"0x[0-9A-Fa-f_]+|\d[\d_]*", t):
+            return str(int(t.replace("_", ""), 0))
+        if t in vars_:
+            return t
+        raise RuntimeError(f"unescape_string: unknown name `{t}` in `{text}`")
+    def expr(minp):
+        lhs = atom()
+        while peek() in prec and prec[peek()] > minp:
+            op = peek()
+            pos[0] += 1
+            rhs = expr(prec[op])
+            lhs = f"({lhs} {lean[op]} {rhs})"
+        return lhs
+    e = expr(0)
+    if pos[0] != len(toks):
+        raise RuntimeError(f"unescape_string: trailing tokens in `{text}`")
+    return e
+
+def extract_str_escapes():
+    src = open(os.path.join(REPO, "crates/ast/src/lower.rs")).read()
+    m = re.search(r"fn unescape_string\(raw: &str\) -> Option<String> \{(.*?)\n\}\n", src, flags=re.S)
+    if not m:
+        raise RuntimeError("anchor lost: fn unescape_string(raw: &str) -> Option<String> in crates/ast/src/lower.rs")
+    body = m.group(1)
+    if len(re.findall(r"\bunescape_string\(", src)) < 3:
+        raise RuntimeError("unescape_string is no longer used by both the string literal and the string pattern lowering")
+    mm = re.search(r"match chars\.next\(\)\? \{\n(.*?)\n\s*'u' => \{\n(.*?)\n            \}\n\s*_ => return None,\n\s*\}", body, flags=re.S)
+    if not mm:
+        raise RuntimeError("unescape_string: the `match chars.next()? { …simple arms… 'u' => { … } _ => return None, }` shape is gone")
+    table = []
+    for line in mm.group(1).splitlines():
+        line = line.strip()
+        if not line:
+            continue
+        a = re.fullmatch(r"'((?:\\.|[^'\\])(?:[^']*)?)' => out\.push\('((?:\\.|[^'\\])(?:[^']*)?)'\),", line)
+        if not a:
+            raise RuntimeError(f"unescape_string: unexpected arm `{line}`")
+        table.append((_rust_char(a.group(1)), _rust_char(a.group(2))))
+    ublock = mm.group(2)
+    u = re.search(
+        r"let hi = hex4\(&mut chars\)\?;\s*"
+        r"let code = if \((0x[0-9A-Fa-f]+)\.\.(0x[0-9A-Fa-f]+)\)\.contains\(&hi\) \{\s*"
+        r"if chars\.next\(\)\? != '\\\\' \|\| chars\.next\(\)\? != 'u' \{\s*return None;\s*\}\s*"
+        r"let lo = hex4\(&mut chars\)\?;\s*"
+        r"if !\((0x[0-9A-Fa-f]+)\.\.(0x[0-9A-Fa-f]+)\)\.contains\(&lo\) \{\s*return None;\s*\}\s*"
+        r"([^;{}]+?)\s*\} else \{\s*hi\s*\};\s*"
+        r"out\.push\(char::from_u32\(code\)\?\);", ublock, flags=re.S)
+    if not u:
+        raise RuntimeError("unescape_string: the `'u'` arm no longer has the shape hex4 / high range / `\\u` / hex4 / low range / "
+                           "combination / `char::from_u32(code)?`")
+    h = re.search(r"fn hex4\(chars: &mut std::str::Chars<'_>\) -> Option<u32> \{\s*let mut value = 0u32;\s*for _ in 0\.\.4 \{\s*"
+                  r"value = value \* 16 \+ chars\.next\(\)\?\.to_digit\(16\)\?;\s*\}\s*Some\(value\)\s*\}", body)
+    if not h:
+        raise RuntimeError("unescape_string: fn hex4 no longer reads exactly four base-16 digits")
+    if not re.search(r"while let Some\(ch\) = chars\.next\(\) \{\s*if ch != '\\\\' \{\s*out\.push\(ch\);\s*continue;\s*\}", body):
+        raise RuntimeError("unescape_string: characters other than a backslash are no longer copied unchanged")
+    combine = _rust_arith_to_lean(u.group(5), {"hi", "lo"})
+    lexsrc = open(os.path.join(REPO, "crates/lexer/src/lib.rs")).read()
+    lx = re.search(r'#\[regex\(r#""\(\[\^"\\\\\\x00-\\x1F\]\|\\\\\(\[([^\]]+)\]\|u\[a-fA-F0-9\]\{4\}\)\)\*""#\)\]\s*Str,', lexsrc)
+    if not lx:
+        raise RuntimeError("anchor lost: the Str token regex in crates/lexer/src/lib.rs")
+    cls, lex_escapes, i = lx.group(1), [], 0
+    while i < len(cls):
+        if cls[i] == "\\":
+            lex_escapes.append(ord(cls[i + 1])); i += 2
+        else:
+            lex_escapes.append(ord(cls[i])); i += 1
+    text = "\n".join([
+        "/- GENERATED by tools/extract.py from crates/ast/src/lower.rs (fn unescape_string) and the `Str` token",
+        "   regex of crates/lexer/src/lib.rs — do not edit. -/",
+        "namespace Goml.Gen.StrEscapes",
+        "",
+        "/-- arms `'e' => out.push('c')` of `match chars.next()?`: escape letter ↦ character (code points) -/",
+        "def simpleTable : List (Nat × Nat) := [" + ", ".join(f"({a}, {b})" for a, b in table) + "]",
+        "",
+        "/-- escape letters of the lexer's `Str` regex, `\\\\([" + "…" + "]|u…)` -/",
+        "def lexerEscapes : List Nat := [" + ", ".join(str(x) for x in lex_escapes) + "]",
+        "",
+        "/-- `(lo..hi).contains(&hi)` / `(lo..hi).contains(&lo)` of the `'u'` arm -/",
+        f"def highLo : Nat := {int(u.group(1), 16)}",
+        f"def highHi : Nat := {int(u.group(2), 16)}",
+        f"def lowLo : Nat := {int(u.group(3), 16)}",
+        f"def lowHi : Nat := {int(u.group(4), 16)}",
+        "",
+        "/-- the recombination of a surrogate pair, translated from `" + re.sub(r"\s+", " ", u.group(5)) + "` -/",
+        f"def combine (hi lo : Nat) : Nat := {combine}",
+        "",
+        "end Goml.Gen.StrEscapes",
+        ""])
+    write_if_changed("StrEscapes.lean", text)
+
+EXTRACTORS += [extract_str_escapes]
 # ---------------------------------------------------------------------------
 # C12: lexer rules (crates/lexer/src/lib.rs) and syntax kinds (crates/parser/src/syntax.rs)
 
@@ -838,6 +969,42 @@ def extract_tokens():
         raise ValueError(f"lexer callbacks changed: {cbs} (the model transcribes lex_multiline_str only)")
     if not re.search(r"fn lex_multiline_str\(lex: &mut logos::Lexer<TokenKind>\) -> Option<\(\)>", lex):
         raise ValueError("lex_multiline_str: signature changed")
+    # the text logos sees IS the caller's text, and spans are reported unshifted: the model's `lexAll`
+    # starts at offset 0 of the given text and every range is relative to it
+    def _norm(t):
+        return re.sub(r"\s+", " ", t).strip()
+    def _body(sig_re, what):
+        m = re.search(sig_re, lex)
+        if not m:
+            raise ValueError(f"{what}: signature not found")
+        i = lex.index("{", m.end() - 1)
+        depth, j = 0, i
+        while True:
+            if lex[j] == "{":
+                depth += 1
+            elif lex[j] == "}":
+                depth -= 1
+                if depth == 0:
+                    break
+            j += 1
+        return _norm(lex[i + 1:j])
+    want = {
+        "Lexer::new": (r"pub fn new\(input: &'a str\) -> Self \{", "Self { inner: TokenKind::lexer(input), }"),
+        "lexer::lex": (r"pub fn lex\(input: &str\) -> Vec<Token<'_>> \{",
+                       "let lexer = Lexer::new(input); let toks: Vec<Token> = lexer.collect(); toks"),
+        "range_from_span": (r"fn range_from_span\(span: Span\) -> TextRange \{",
+                            "let std::ops::Range { start, end } = span; let start = TextSize::try_from(start).unwrap(); "
+                            "let end = TextSize::try_from(end).unwrap(); TextRange::new(start, end)"),
+    }
+    for what, (sig, body) in want.items():
+        got = _body(sig, what)
+        if got != body:
+            raise ValueError(f"{what}: body changed — the lexer may no longer see the caller's text unmodified / report unshifted "
+                             f"spans (the model lexes the given text from offset 0). now: {got!r}")
+    nb = _body(r"fn next\(&mut self\) -> Option<Self::Item> \{", "Lexer::next")
+    if nb.count("let text = self.inner.slice();") != 2 or nb.count("range: range_from_span(self.inner.span()),") != 2 \
+            or not nb.startswith("let kind = self.inner.next()?;"):
+        raise ValueError(f"Lexer::next: token text/range are no longer logos' slice()/span(): {nb!r}")
     if "kind: TokenKind::Error," not in lex or "if let Ok(kind) = kind" not in lex:
         raise ValueError("Lexer::next no longer maps a logos error to TokenKind::Error")
     tm = re.search(r"pub fn is_trivia\(self\) -> bool \{\s*matches!\(self,([^)]*)\)\s*\}", lex)
@@ -869,6 +1036,10 @@ def extract_tokens():
          "",
          f"/-- the variant `kind_from_raw` uses as its upper bound -/",
          f"def kindFromRawBound : String := {_tok_lean_str(bm.group(1))}",
+         "",
+         "/-- asserted by the extractor: `lexer::lex`/`Lexer::new` hand the caller's text to logos unmodified and",
+         "`range_from_span` reports logos' spans unshifted, so token 0 starts at this byte offset of the caller's text -/",
+         "def lexStartOffset : Nat := 0",
          "",
          f"def errorKind : Nat := {names.index('Error')}",
          f"def eofKind : Nat := {names.index('Eof')}",
@@ -1185,9 +1356,7 @@ def runtime_tables():
     if not m1 or not m2 or 'format!("{}{}_{}", CLOSURE_ENV_PREFIX, hint, self.next_id)' not in lift or 'format!("{}{}", CLOSURE_ENV_PREFIX, self.next_id)' not in lift:
         raise Exception("lift.rs closure naming changed")
     mono = re.sub(r"\s+", " ", _src("crates/compiler/src/mono.rs"))
-    for frag in ['.map(|(k, v)| format!("{}_{}", k, ty_compact(v))) .collect::<Vec<_>>() .join("__"); format!("{}__{}", orig, suffix)',
-                 'format!( "__{}", args.iter().map(ty_compact).collect::<Vec<_>>().join("__") )',
-                 'let func_name = trait_impl_fn_name(&trait_name, &receiver_ty, &method_name.0);']:
+    for frag in ['let func_name = trait_impl_fn_name(&trait_name, &receiver_ty, &method_name.0);']:
         if frag not in mono:
             raise Exception(f"mono.rs changed near: {frag[:70]}")
     # predeclared Go identifiers the emitted code relies on: literals used as Go names in runtime.rs / compile.rs
@@ -1202,8 +1371,18 @@ def runtime_tables():
             "entry_src": entry_src, "entry_go": entry_go, "closure_prefix": m1.group(1), "closure_apply": m2.group(1),
             "relied": relied, "qualified": qualified, "fixed_params": fixed_locals}
 
+def instance_spelling():
+    """which function spells the type arguments in instance names (mono.rs)"""
+    mono = re.sub(r"\s+", " ", _src("crates/compiler/src/mono.rs"))
+    m1 = re.search(r'fn ensure_instance\(&mut self, name: &str, args: &\[Ty\]\) -> TastIdent \{.*?format!\( "__\{\}", args\.iter\(\)\.map\((\w+)\)\.collect::<Vec<_>>\(\)\.join\("__"\) \)', mono)
+    m2 = re.search(r'fn spec_name_for\(orig: &str, s: &Subst\) -> String \{.*?\.map\(\|\(k, v\)\| format!\("\{\}_\{\}", k, (\w+)\(v\)\)\) \.collect::<Vec<_>>\(\) \.join\("__"\); format!\("\{\}__\{\}", orig, suffix\)', mono)
+    if not m1 or not m2:
+        raise Exception("mono.rs: ensure_instance / spec_name_for no longer build `Base__args` / `orig__K_ty` names this way")
+    return m1.group(1), m2.group(1)
+
 def gen_runtime():
     d = runtime_tables()
+    d["inst_spelling"], d["spec_spelling"] = instance_spelling()
     text = GEN_HEADER.format(src="go/runtime.rs, go/compile.rs, lift.rs, env.rs (Gensym), compile_match.rs/anf.rs (gensym call sites)") + f"""namespace Goml.Gen
 
 /-- Go functions `make_runtime` always declares (before dead-code elimination) -/
@@ -1228,6 +1407,11 @@ def closureApplyMethod : List Char := {_lean_chars(d["closure_apply"])}
 
 /-- predeclared Go identifiers that runtime.rs / compile.rs emit by name -/
 def reliedPredeclared : List (List Char) := {_lean_chars_list(d["relied"])}
+
+/-- the Rust function `TypeMono::ensure_instance` maps over the type arguments of `Base__a__b` -/
+def instanceArgSpelling : String := {_lean_str(d["inst_spelling"])}
+/-- … and the one `spec_name_for` applies to each substituted type -/
+def specArgSpelling : String := {_lean_str(d["spec_spelling"])}
 
 /-- parameter names hard-wired in generated helper functions -/
 def fixedParamNames : List (List Char) := {_lean_chars_list(d["fixed_params"])}
@@ -1727,6 +1911,73 @@ end Goml.Gen
 """)
 
 EXTRACTORS += [c01pipe_gen_pipeline_order]
+
+# ---------------------------------------------------------------- gocomp: anchors of go/compile.rs the model was written against
+def gocomp_fn_body(text, name):
+    return block_after(text, r"\bfn\s+" + re.escape(name) + r"\b[^{;]*\{", f"fn {name}")
+
+def gocomp_tables():
+    comp = src("crates/compiler/src/go/compile.rs")
+    goast = src("crates/compiler/src/go/goast.rs")
+    rt = src("crates/compiler/src/go/runtime.rs")
+    cexpr = gocomp_fn_body(comp, "compile_cexpr")
+    i = cexpr.find("anf::CExpr::ECall")
+    if i < 0:
+        raise Exception("compile_cexpr: the ECall arm is gone")
+    call_arm = cexpr[i:cexpr.find("anf::CExpr::EProj", i)]
+    # callee names the ECall arm (and the `missing` case of compile_aexpr_assign) compares with
+    special = []
+    for m in re.finditer(r'\*?name\s*==\s*"(\w+)"', call_arm):
+        if m.group(1) not in special:
+            special.append(m.group(1))
+    assign = gocomp_fn_body(comp, "compile_aexpr_assign")
+    for m in re.finditer(r'name\s*==\s*"(\w+)"', assign):
+        if m.group(1) not in special:
+            special.append(m.group(1))
+    if len(special) < 5:
+        raise Exception(f"compile_cexpr ECall arm: callee tests not found ({special})")
+    # `tast_ty_to_go_type` never answers TVoid  =>  compile_fn's TVoid arm (compile_aexpr) is dead
+    conv = gocomp_fn_body(goast, "tast_ty_to_go_type")
+    void_result = "TVoid" in conv
+    fn = gocomp_fn_body(comp, "compile_fn")
+    if "goty::GoType::TVoid => (None, compile_aexpr(" not in fn.replace("\n", " ") and "TVoid" not in fn:
+        raise Exception("compile_fn: the TVoid arm is gone")
+    gens = re.findall(r'gensym\.gensym\("(\w+)"\)', comp)
+    # order of the runtime functions
+    mk = gocomp_fn_body(rt, "make_runtime")
+    rtfns = re.findall(r"Item::Fn\((\w+)\(\)\)", mk)
+    if len(rtfns) < 10:
+        raise Exception("make_runtime: Item::Fn(...) list not found")
+    # the three statement lowerings that exist
+    lowerings = [n for n in ("compile_aexpr_effect", "compile_aexpr_assign", "compile_aexpr", "compile_while", "compile_match_branches",
+                             "compile_cexpr_effect", "compile_go", "compile_fn", "go_file") if re.search(r"\bfn\s+" + n + r"\b", comp)]
+    return special, void_result, gens, rtfns, lowerings
+
+def gocomp_gen_tables():
+    special, void_result, gens, rtfns, lowerings = gocomp_tables()
+    ls = lambda xs: "[" + ", ".join(lstr(x) for x in xs) + "]"
+    write_if_changed("GoCompTables.lean", f"""/- GENERATED by tools/extract.py (gocomp_gen_tables) from crates/compiler/src/go/compile.rs, goast.rs, runtime.rs — do not edit; regenerated on every ./check run -/
+namespace Goml.Gen
+
+/-- callee names `compile_cexpr` (ECall arm) and `compile_aexpr_assign` test for, in source order -/
+def gocompSpecialCallees : List String := {ls(special)}
+
+/-- does `tast_ty_to_go_type` mention `TVoid`?  (`false`: the `TVoid` arm of `compile_fn`, i.e. `compile_aexpr`, is dead) -/
+def gocompTyToGoMentionsVoid : Bool := {"true" if void_result else "false"}
+
+/-- prefixes passed to `Gensym::gensym` in compile.rs, in source order -/
+def gocompGensymPrefixes : List String := {ls(gens)}
+
+/-- the functions `make_runtime` emits, in order -/
+def gocompRuntimeFns : List String := {ls(rtfns)}
+
+/-- the lowering functions of compile.rs the model mirrors (or, for `compile_aexpr`, declares dead) -/
+def gocompLoweringFns : List String := {ls(lowerings)}
+
+end Goml.Gen
+""")
+
+EXTRACTORS += [gocomp_gen_tables]
 
 if __name__ == "__main__":
     main()
